@@ -163,8 +163,8 @@ package parquet
 //@   ensures[C02] err == nil && dyn(w) != typeid("*bytes.Buffer") ==> snkPos == old(snkPos) + footLen + 4 && footLen >= 0 && snkKept(old(snkPos)) && (0 <= footLen && footLen <= 4294967295 ==> snkLE32(old(snkPos) + footLen) == footLen)
 //@   ensures[C06] err == nil ==> footRows == rowsSum(HA(m.rowGroups), off(m.rowGroups), #m.rowGroups) && footGroups == groupsKept(HA(m.rowGroups), off(m.rowGroups), #m.rowGroups)
 //@ loop (*Metadata).Footer#1
-//@   invariant wfault == old(wfault) && snkPos == old(snkPos) && snkB == old(snkB) && freshOrNil(fmd.RowGroups) && fmd != nil && freshsince(fmd) && 0 <= rangeindex + 1 && rangeindex + 1 <= #m.rowGroups
-//@   invariant[C06] fmd.NumRows == rowsSum(HA(m.rowGroups), off(m.rowGroups), rangeindex + 1) && #fmd.RowGroups == groupsKept(HA(m.rowGroups), off(m.rowGroups), rangeindex + 1)
+//@   invariant wfault == old(wfault) && snkPos == old(snkPos) && snkB == old(snkB) && freshOrNil(fmd.RowGroups) && fmd != nil && freshsince(fmd) && 0 <= iter && iter <= #m.rowGroups
+//@   invariant[C06] fmd.NumRows == rowsSum(HA(m.rowGroups), off(m.rowGroups), iter) && #fmd.RowGroups == groupsKept(HA(m.rowGroups), off(m.rowGroups), iter)
 //@   invariant[C02] #fmd.RowGroups == 0 ==> pos == 4
 //@   invariant[C02] forall g in 0..#fmd.RowGroups: grpAlloc(fmd.RowGroups[g], fmd.RowGroups)
 //@   invariant[C02] forall g in 0..#fmd.RowGroups - 1: grpAdj(fmd.RowGroups[g], fmd.RowGroups[g + 1])
@@ -184,7 +184,7 @@ package parquet
 //@   invariant[C02] #rg.Columns >= 1 ==> pos == cEnd(rg.Columns[#rg.Columns - 1])
 //@   invariant[C02] #fmd.RowGroups == 0 && #rg.Columns == 0 ==> pos == 4
 //@   invariant[C02] #fmd.RowGroups == 0 && #rg.Columns >= 1 ==> rg.Columns[0].FileOffset == 4
-//@   invariant[C06] fmd.NumRows == rowsSum(HA(m.rowGroups), off(m.rowGroups), rangeindex$1 + 1) && #fmd.RowGroups == groupsKept(HA(m.rowGroups), off(m.rowGroups), rangeindex$1 + 1) && rg.NumRows == m.rowGroups[rangeindex$1 + 1].rowGroup.NumRows && rg.NumRows != 0 && 0 <= rangeindex$1 + 1 && rangeindex$1 + 1 < #m.rowGroups
+//@   invariant[C06] fmd.NumRows == rowsSum(HA(m.rowGroups), off(m.rowGroups), iter$1) && #fmd.RowGroups == groupsKept(HA(m.rowGroups), off(m.rowGroups), iter$1) && rg.NumRows == m.rowGroups[iter$1].rowGroup.NumRows && rg.NumRows != 0 && 0 <= iter$1 && iter$1 < #m.rowGroups
 
 //@ func schemaElements
 //@   modifies nothing
@@ -230,7 +230,7 @@ package parquet
 //@   modifies nothing
 //@   ensures #res == #in
 //@ loop getRepetitionTypes#1
-//@   invariant freshsince(out) && #out == #in && 0 <= rangeindex + 1
+//@   invariant freshsince(out) && #out == #in && 0 <= iter
 
 // C03: a column's maximum definition level is the number of optional or repeated
 // fields on its path, its maximum repetition level the number of repeated ones
@@ -242,13 +242,13 @@ package parquet
 //@   modifies nothing
 //@   ensures[C03] cntNonReq(HA(r), off(r), #r) <= 255 ==> res == cntNonReq(HA(r), off(r), #r)
 //@ loop (RepetitionTypes).MaxDef#1
-//@   invariant[C03] 0 <= rangeindex + 1 && rangeindex + 1 <= #r && cntNonReq(HA(r), off(r), rangeindex + 1) >= 0 && (cntNonReq(HA(r), off(r), rangeindex + 1) <= 255 ==> out == cntNonReq(HA(r), off(r), rangeindex + 1))
+//@   invariant[C03] 0 <= iter && iter <= #r && cntNonReq(HA(r), off(r), iter) >= 0 && (cntNonReq(HA(r), off(r), iter) <= 255 ==> out == cntNonReq(HA(r), off(r), iter))
 //@ func (RepetitionTypes).MaxRep
 //@   verify[C03]
 //@   modifies nothing
 //@   ensures[C03] cntRepd(HA(r), off(r), #r) <= 255 ==> res == cntRepd(HA(r), off(r), #r)
 //@ loop (RepetitionTypes).MaxRep#1
-//@   invariant[C03] 0 <= rangeindex + 1 && rangeindex + 1 <= #r && cntRepd(HA(r), off(r), rangeindex + 1) >= 0 && (cntRepd(HA(r), off(r), rangeindex + 1) <= 255 ==> out == cntRepd(HA(r), off(r), rangeindex + 1))
+//@   invariant[C03] 0 <= iter && iter <= #r && cntRepd(HA(r), off(r), iter) >= 0 && (cntRepd(HA(r), off(r), iter) <= 255 ==> out == cntRepd(HA(r), off(r), iter))
 
 // ---- read path
 // C10: a failed Read/Seek on the source surfaces as an error.
@@ -377,7 +377,7 @@ package parquet
 //@   requires[C04] #defs == curNV || defs == f.Defs   // one page's levels, or the field's whole level list
 //@   ensures[C04] res == cntEq(HA(defs), off(defs), #defs, max)
 //@ loop (*OptionalField).valsFromDefs#1
-//@   invariant[C04] 0 <= rangeindex + 1 && rangeindex + 1 <= #defs && out == cntEq(HA(defs), off(defs), rangeindex + 1, max)
+//@   invariant[C04] 0 <= iter && iter <= #defs && out == cntEq(HA(defs), off(defs), iter, max)
 
 // C04: booleans are unpacked page by page: after k pages exactly the bytes of those k pages
 // (ceil(count/8) each, whatever the counts) have been taken from the value bytes.
@@ -395,18 +395,18 @@ package parquet
 //@ loop GetBools#1
 //@   free-invariant forall k in 0..#pageSizes: pageSizes[k] >= 0
 //@   invariant freshOrNil(out) && freshOrNil(data) && (rfault ==> old(rfault))
-//@   invariant[C04] 0 <= rangeindex + 1 && rangeindex + 1 <= #pageSizes && #data + boolBytes(HA(pageSizes), off(pageSizes), rangeindex + 1) == lastReadAll
-//@   invariant[C04] #out == sumN(HA(pageSizes), off(pageSizes), rangeindex + 1)
+//@   invariant[C04] 0 <= iter && iter <= #pageSizes && #data + boolBytes(HA(pageSizes), off(pageSizes), iter) == lastReadAll
+//@   invariant[C04] #out == sumN(HA(pageSizes), off(pageSizes), iter)
 //@ loop GetBools#2
 //@   invariant freshOrNil(out) && freshOrNil(data) && (rfault ==> old(rfault))
-//@   invariant[C04] 0 <= rangeindex$1 + 1 && rangeindex$1 + 1 < #pageSizes && #data + boolBytes(HA(pageSizes), off(pageSizes), rangeindex$1 + 2) == lastReadAll
-//@   invariant[C04] 0 <= rangeindex + 1 && rangeindex + 1 <= #chunk && 0 <= nVals && nVals <= 8 * (#chunk - (rangeindex + 1)) && (rangeindex + 1 < #chunk ==> nVals > 8 * (#chunk - (rangeindex + 1) - 1))
-//@   invariant[C04] #out + nVals == sumN(HA(pageSizes), off(pageSizes), rangeindex$1 + 2)
+//@   invariant[C04] 0 <= iter$1 && iter$1 < #pageSizes && #data + boolBytes(HA(pageSizes), off(pageSizes), iter$1 + 1) == lastReadAll
+//@   invariant[C04] 0 <= iter && iter <= #chunk && 0 <= nVals && nVals <= 8 * (#chunk - (iter)) && (iter < #chunk ==> nVals > 8 * (#chunk - (iter) - 1))
+//@   invariant[C04] #out + nVals == sumN(HA(pageSizes), off(pageSizes), iter$1 + 1)
 //@ loop GetBools#3
 //@   invariant freshOrNil(out) && freshOrNil(data) && (rfault ==> old(rfault))
-//@   invariant[C04] 0 <= rangeindex$1 + 1 && rangeindex$1 + 1 < #pageSizes && #data + boolBytes(HA(pageSizes), off(pageSizes), rangeindex$1 + 2) == lastReadAll
-//@   invariant[C04] 0 <= rangeindex$2 + 1 && rangeindex$2 + 1 < #chunk && 0 < nVals && nVals <= 8 * (#chunk - (rangeindex$2 + 1)) && nVals > 8 * (#chunk - (rangeindex$2 + 1) - 1)
-//@   invariant[C04] 0 <= j && j <= m && m <= 8 && m <= nVals && (m == nVals || m == 8) && #out + nVals - j == sumN(HA(pageSizes), off(pageSizes), rangeindex$1 + 2)
+//@   invariant[C04] 0 <= iter$1 && iter$1 < #pageSizes && #data + boolBytes(HA(pageSizes), off(pageSizes), iter$1 + 1) == lastReadAll
+//@   invariant[C04] 0 <= iter$2 && iter$2 < #chunk && 0 < nVals && nVals <= 8 * (#chunk - (iter$2)) && nVals > 8 * (#chunk - (iter$2) - 1)
+//@   invariant[C04] 0 <= j && j <= m && m <= 8 && m <= nVals && (m == nVals || m == 8) && #out + nVals - j == sumN(HA(pageSizes), off(pageSizes), iter$1 + 1)
 
 //@ func (*Metadata).Pages
 //@   requires m != nil
@@ -472,4 +472,4 @@ package parquet
 //@ loop PageHeaders#2
 //@   invariant (rfault ==> old(rfault)) && freshOrNil(pageHeaders)
 // every chunk listed by the footer is walked from its own data page offset for its own value count
-//@   invariant[C16] rangeindex >= 0 ==> walkO == rg.Columns[rangeindex].MetaData.DataPageOffset && walkN == rg.Columns[rangeindex].MetaData.NumValues
+//@   invariant[C16] (iter - 1) >= 0 ==> walkO == rg.Columns[(iter - 1)].MetaData.DataPageOffset && walkN == rg.Columns[(iter - 1)].MetaData.NumValues
